@@ -552,6 +552,7 @@ func runC17(c *Ctx, r *Report) {
 		"an option given in $FZF_DEFAULT_OPTS is silently lost when the related option comes from the command line (--history-size in the environment with --history on the command line: file never capped)")
 	c17r8(c, r, pos)
 	c17r9(c, r)
+	c17r10(c, r)
 
 	if c.thorough() {
 		// ---------------- R5 ----------------
